@@ -236,6 +236,7 @@ func (w *worker) exec(c *mc.Ctx, cs Case) {
 		}
 		c.Violate(key, msg+fmt.Sprintf("\noutput=%q", clip(res.Out)), cs)
 	}
+	c.Distinct("outcomes", fmt.Sprintf("out=%dB|closed=%v|err=%v", len(res.Out), res.Closed, res.Err != nil))
 	if res.Panic != nil {
 		fail("panic", fmt.Sprintf("panic: %v\n%s", res.Panic, res.Stack))
 		return
